@@ -563,7 +563,8 @@ var pureLib = map[string]bool{
 	"strconv.FormatUint": true, "strconv.Itoa": true, "strconv.FormatInt": true,
 	"strings.HasPrefix": true, "strings.HasSuffix": true, "strings.TrimSpace": true, "strings.TrimPrefix": true,
 	"strings.TrimSuffix": true, "strings.Contains": true, "strings.ReplaceAll": true, "strings.ToLower": true,
-	"filepath.Base": true, "filepath.Ext": true, "filepath.Dir": true, "filepath.Join": true,
+	"strings.Cut": true, "strings.Split": true, "strings.Join": true,
+	"filepath.Match": true, "filepath.Base": true, "filepath.Ext": true, "filepath.Dir": true, "filepath.Join": true,
 	"net.JoinHostPort": true, "base64.Encoding.EncodeToString": true, "sha256.Sum256": true,
 	"http.Request.PathValue": true, "http.Request.Context": true, "url.Values.Get": true, "http.Header.Get": true,
 	"idna.ToASCII": true, "net.SplitHostPort": true, "net.Listener.Addr": true, "net.Addr.String": true,
